@@ -73,12 +73,12 @@ theorem one_ok {S : Schema} (hG : GroupScanOK S) {mi : Nat} {f : Field} {g depth
     (hg : g ≤ defaultRecursionLimit)
     (hc1 : f.card ≠ .repeated) (hc2 : f.card ≠ .map) (hwf : cwfVal S g f v = true)
     (hz : (f.card == .implicit && v.isZero) = false)
-    {acc : Fields} {u rest : List Byte} {R : Msg}
+    {acc : Fields} {u rest : List Byte} {R : Except DErr Msg}
     (hacc : acc.allLt f.num) (hfree : ∀ o, f.oneof = some o → oneofFree (S.msg mi) o acc = true)
     (hdepth : (depthVal v : Int) ≤ depth)
     (IH : ∀ sub, v = .msg sub → RoundMsg S sub)
-    (hrest : DecOK S mi depth dis (.mk (acc.snoc f.num (.one (stripVal dis v))) u) rest R) :
-    DecOK S mi depth dis (.mk acc u) (encVal S f v ++ rest) R := by
+    (hrest : DecTo S mi depth dis (.mk (acc.snoc f.num (.one (stripVal dis v))) u) rest R) :
+    DecTo S mi depth dis (.mk acc u) (encVal S f v ++ rest) R := by
   by_cases hm : f.kind.isMessage = true
   · cases v with
     | num n => simp [cwfVal, hm] at hwf
@@ -88,7 +88,7 @@ theorem one_ok {S : Schema} (hG : GroupScanOK S) {mi : Nat} {f : Field} {g depth
       obtain ⟨wt, payload, body, hwt, hmsg, henc, hsub, hcons, hdec, hlen, hd⟩ :=
         val_msg_facts hG (dis := dis) hfind h1 h2 hg hwf (IH sub rfl) hdepth
       rw [henc, List.append_assoc]
-      refine DecOK_known h1 h2 hwt hfind ?_ (hcons rest) (m' := .mk (acc.snoc f.num (.one (.msg (stripMsg dis sub)))) u) ?_
+      refine DecTo_known h1 h2 hwt hfind ?_ (hcons rest) (m' := .mk (acc.snoc f.num (.one (.msg (stripMsg dis sub)))) u) ?_
       · intro fuel hf
         cases fuel with
         | zero => omega
@@ -103,7 +103,7 @@ theorem one_ok {S : Schema} (hG : GroupScanOK S) {mi : Nat} {f : Field} {g depth
     have hs := cwfVal_scalar hm' hwf
     rw [encVal_scalar S f hs, List.append_assoc]
     rw [wfScalar_strip hs] at hrest
-    refine DecOK_known h1 h2 (wireType_lt _) hfind ?_ (consume_scalar hs _ rest _) hrest
+    refine DecTo_known h1 h2 (wireType_lt _) hfind ?_ (consume_scalar hs _ rest _) hrest
     intro fuel hf
     cases fuel with
     | zero => omega
@@ -116,12 +116,12 @@ theorem elem_ok {S : Schema} (hG : GroupScanOK S) {mi : Nat} {f : Field} {g dept
     (hfind : (S.msg mi).find f.num = some f) (h1 : 1 ≤ f.num) (h2 : f.num ≤ maxValidNumber)
     (hg : g ≤ defaultRecursionLimit)
     (hc : f.card = .repeated) (hwf : cwfVal S g f v = true)
-    {acc : Fields} {u rest : List Byte} {R : Msg} (pre : Vals)
+    {acc : Fields} {u rest : List Byte} {R : Except DErr Msg} (pre : Vals)
     (hacc : acc.allLt f.num)
     (hdepth : (depthVal v : Int) ≤ depth)
     (IH : ∀ sub, v = .msg sub → RoundMsg S sub)
-    (hrest : DecOK S mi depth dis (.mk (accWith acc f.num (pre.append (.cons (stripVal dis v) .nil))) u) rest R) :
-    DecOK S mi depth dis (.mk (accWith acc f.num pre) u) (encVal S f v ++ rest) R := by
+    (hrest : DecTo S mi depth dis (.mk (accWith acc f.num (pre.append (.cons (stripVal dis v) .nil))) u) rest R) :
+    DecTo S mi depth dis (.mk (accWith acc f.num pre) u) (encVal S f v ++ rest) R := by
   by_cases hm : f.kind.isMessage = true
   · cases v with
     | num n => simp [cwfVal, hm] at hwf
@@ -131,7 +131,7 @@ theorem elem_ok {S : Schema} (hG : GroupScanOK S) {mi : Nat} {f : Field} {g dept
       obtain ⟨wt, payload, body, hwt, hmsg, henc, hsub, hcons, hdec, hlen, hd⟩ :=
         val_msg_facts hG (dis := dis) hfind h1 h2 hg hwf (IH sub rfl) hdepth
       rw [henc, List.append_assoc]
-      refine DecOK_known h1 h2 hwt hfind ?_ (hcons rest)
+      refine DecTo_known h1 h2 hwt hfind ?_ (hcons rest)
         (m' := .mk (accWith acc f.num (pre.append (.cons (.msg (stripMsg dis sub)) .nil))) u) ?_
       · intro fuel hf
         cases fuel with
@@ -147,7 +147,7 @@ theorem elem_ok {S : Schema} (hG : GroupScanOK S) {mi : Nat} {f : Field} {g dept
     have hs := cwfVal_scalar hm' hwf
     rw [encVal_scalar S f hs, List.append_assoc]
     rw [wfScalar_strip hs] at hrest
-    refine DecOK_known h1 h2 (wireType_lt _) hfind ?_ (consume_scalar hs _ rest _) hrest
+    refine DecTo_known h1 h2 (wireType_lt _) hfind ?_ (consume_scalar hs _ rest _) hrest
     intro fuel hf
     cases fuel with
     | zero => omega
@@ -160,11 +160,11 @@ theorem elem_ok {S : Schema} (hG : GroupScanOK S) {mi : Nat} {f : Field} {g dept
 theorem vals_ok {S : Schema} (hG : GroupScanOK S) {mi : Nat} {f : Field} {g depth : Int} {dis : Bool}
     (hfind : (S.msg mi).find f.num = some f) (h1 : 1 ≤ f.num) (h2 : f.num ≤ maxValidNumber)
     (hg : g ≤ defaultRecursionLimit) (hc : f.card = .repeated)
-    {acc : Fields} {u rest : List Byte} {R : Msg} (hacc : acc.allLt f.num) :
+    {acc : Fields} {u rest : List Byte} {R : Except DErr Msg} (hacc : acc.allLt f.num) :
     ∀ (vs pre : Vals), cwfVals S g f vs = true → (depthVals vs : Int) ≤ depth →
       (∀ sub, sizeOf sub < sizeOf vs → RoundMsg S sub) →
-      DecOK S mi depth dis (.mk (accWith acc f.num (pre.append (stripVals dis vs))) u) rest R →
-      DecOK S mi depth dis (.mk (accWith acc f.num pre) u) (encVals S f vs ++ rest) R
+      DecTo S mi depth dis (.mk (accWith acc f.num (pre.append (stripVals dis vs))) u) rest R →
+      DecTo S mi depth dis (.mk (accWith acc f.num pre) u) (encVals S f vs ++ rest) R
   | .nil, pre, _, _, _, hrest => by
     simpa [encVals, stripVals, Vals.append_nil] using hrest
   | .cons v tl, pre, hwf, hd, IH, hrest => by
@@ -181,18 +181,18 @@ theorem vals_ok {S : Schema} (hG : GroupScanOK S) {mi : Nat} {f : Field} {g dept
 theorem packed_ok {S : Schema} {mi : Nat} {f : Field} {g depth : Int} {dis : Bool}
     (hfind : (S.msg mi).find f.num = some f) (h1 : 1 ≤ f.num) (h2 : f.num ≤ maxValidNumber)
     (hc : f.card = .repeated) (hnum : f.kind.isNumeric = true)
-    {acc : Fields} {u rest : List Byte} {R : Msg} (hacc : acc.allLt f.num)
+    {acc : Fields} {u rest : List Byte} {R : Except DErr Msg} (hacc : acc.allLt f.num)
     {vs : Vals} (hne : vs.isNil = false) (hwf : cwfVals S g f vs = true)
     (hsize : sizePacked f.kind vs < 2 ^ 64)
-    (hrest : DecOK S mi depth dis (.mk (acc.snoc f.num (.many vs)) u) rest R) :
-    DecOK S mi depth dis (.mk acc u)
+    (hrest : DecTo S mi depth dis (.mk (acc.snoc f.num (.many vs)) u) rest R) :
+    DecTo S mi depth dis (.mk acc u)
       (tagBytes f.num 2 ++ encVarint (encPacked f.kind vs).length ++ encPacked f.kind vs ++ rest) R := by
   have hlen : (encPacked f.kind vs).length < 2 ^ 64 := by rw [← C04.sizePacked_eq]; exact hsize
   have e : tagBytes f.num 2 ++ encVarint (encPacked f.kind vs).length ++ encPacked f.kind vs ++ rest =
       tagBytes f.num 2 ++ ((encVarint (encPacked f.kind vs).length ++ encPacked f.kind vs) ++ rest) := by
     simp only [List.append_assoc]
   rw [e]
-  refine DecOK_known h1 h2 (by omega) hfind ?_ ?_ hrest
+  refine DecTo_known h1 h2 (by omega) hfind ?_ ?_ hrest
   · intro fuel hf
     cases fuel with
     | zero => omega
@@ -207,11 +207,11 @@ theorem packed_ok {S : Schema} {mi : Nat} {f : Field} {g depth : Int} {dis : Boo
 
 /-- the entry loop succeeds with `R` for every adequate fuel -/
 def EntOK (S : Schema) (kf vf : Field) (depth : Int) (dis : Bool) (k v : Option Val) (b : List Byte)
-    (R : Option Val × Option Val) : Prop :=
-  ∀ fuel, b.length + 2 ≤ fuel → decEntry fuel S kf vf k v b depth dis = .ok R
+    (R : Except DErr (Option Val × Option Val)) : Prop :=
+  ∀ fuel, b.length + 2 ≤ fuel → decEntry fuel S kf vf k v b depth dis = R
 
 theorem EntOK_nil (S : Schema) (kf vf : Field) (depth : Int) (dis : Bool) (k v : Option Val) :
-    EntOK S kf vf depth dis k v [] (k, v) := by
+    EntOK S kf vf depth dis k v [] (.ok (k, v)) := by
   intro fuel hf
   cases fuel with
   | zero => omega
@@ -219,7 +219,7 @@ theorem EntOK_nil (S : Schema) (kf vf : Field) (depth : Int) (dis : Bool) (k v :
 
 /-- the key record of a map entry -/
 theorem EntOK_key {S : Schema} {kf vf : Field} {depth : Int} {dis : Bool} {k v : Option Val} {key : Val}
-    {rest : List Byte} {R : Option Val × Option Val} (hs : wfScalar kf key = true)
+    {rest : List Byte} {R : Except DErr (Option Val × Option Val)} (hs : wfScalar kf key = true)
     (hrest : EntOK S kf vf depth dis (some key) v rest R) :
     EntOK S kf vf depth dis k v (tagBytes 1 kf.kind.wireType ++ (encScalar kf.kind key ++ rest)) R := by
   intro fuel hf
@@ -241,7 +241,7 @@ theorem EntOK_key {S : Schema} {kf vf : Field} {depth : Int} {dis : Bool} {k v :
 
 /-- the value record of a map entry, scalar value -/
 theorem EntOK_val_scalar {S : Schema} {kf vf : Field} {depth : Int} {dis : Bool} {k v : Option Val} {value : Val}
-    {rest : List Byte} {R : Option Val × Option Val} (hs : wfScalar vf value = true)
+    {rest : List Byte} {R : Except DErr (Option Val × Option Val)} (hs : wfScalar vf value = true)
     (hrest : EntOK S kf vf depth dis k (some value) rest R) :
     EntOK S kf vf depth dis k v (tagBytes 2 vf.kind.wireType ++ (encScalar vf.kind value ++ rest)) R := by
   intro fuel hf
@@ -266,7 +266,7 @@ theorem EntOK_val_scalar {S : Schema} {kf vf : Field} {depth : Int} {dis : Bool}
 
 /-- the value record of a map entry, message value -/
 theorem EntOK_val_msg {S : Schema} {kf vf : Field} {depth : Int} {dis : Bool} {k : Option Val} {sub : Msg}
-    {wt : Nat} {payload body rest : List Byte} {R : Option Val × Option Val}
+    {wt : Nat} {payload body rest : List Byte} {R : Except DErr (Option Val × Option Val)}
     (hwt : wt < 8) (hm : vf.kind.isMessage = true)
     (hsub : decSubBytes vf wt (payload ++ rest) = some (.ok body))
     (hcons : consumeFieldValue 2 wt (payload ++ rest) = .ok payload.length)
@@ -336,13 +336,13 @@ theorem entry_ok {S : Schema} (hG : GroupScanOK S) {mi : Nat} {f kf vf : Field} 
     (hfind : (S.msg mi).find f.num = some f) (h1 : 1 ≤ f.num) (h2 : f.num ≤ maxValidNumber)
     (hc : f.card = .map) (hkg : f.kind ≠ .group)
     (hk : (S.msg f.sub).find 1 = some kf) (hv : (S.msg f.sub).find 2 = some vf)
-    {acc : Fields} {u rest : List Byte} {R : Msg} (pre : Vals) (hacc : acc.allLt f.num) {v : Val}
+    {acc : Fields} {u rest : List Byte} {R : Except DErr Msg} (pre : Vals) (hacc : acc.allLt f.num) {v : Val}
     (hwf : cwfEntry S f kf vf v = true)
     (hfree : ∀ e k, v = .msg e → entryKey e = some k → keyFree k pre = true)
     (hdepth : (depthVal v : Int) ≤ depth)
     (IH : ∀ sub, sizeOf sub < sizeOf v → RoundMsg S sub)
-    (hrest : DecOK S mi depth dis (.mk (accWith acc f.num (pre.append (.cons (stripVal dis v) .nil))) u) rest R) :
-    DecOK S mi depth dis (.mk (accWith acc f.num pre) u) (encVal S f v ++ rest) R := by
+    (hrest : DecTo S mi depth dis (.mk (accWith acc f.num (pre.append (.cons (stripVal dis v) .nil))) u) rest R) :
+    DecTo S mi depth dis (.mk (accWith acc f.num pre) u) (encVal S f v ++ rest) R := by
   obtain ⟨key, value, rfl, hks, hvs, hsz⟩ := cwfEntry_inv hwf
   have hkn := MsgD.find_num_eq hk
   have hvn := MsgD.find_num_eq hv
@@ -386,7 +386,7 @@ theorem entry_ok {S : Schema} (hG : GroupScanOK S) {mi : Nat} {f kf vf : Field} 
       tagBytes f.num 2 ++ (encVarint B.length ++ B) := by
     simp only [encVal, hkg, if_false, hbody, List.append_assoc]
   rw [henc, List.append_assoc]
-  refine DecOK_known h1 h2 (by omega) hfind ?_ ?_ hrest
+  refine DecTo_known h1 h2 (by omega) hfind ?_ ?_ hrest
   · intro fuel hf
     cases fuel with
     | zero => omega
@@ -410,13 +410,13 @@ theorem entries_ok {S : Schema} (hG : GroupScanOK S) {mi : Nat} {f kf vf : Field
     (hfind : (S.msg mi).find f.num = some f) (h1 : 1 ≤ f.num) (h2 : f.num ≤ maxValidNumber)
     (hc : f.card = .map) (hkg : f.kind ≠ .group)
     (hk : (S.msg f.sub).find 1 = some kf) (hv : (S.msg f.sub).find 2 = some vf)
-    {acc : Fields} {u rest : List Byte} {R : Msg} (hacc : acc.allLt f.num) :
+    {acc : Fields} {u rest : List Byte} {R : Except DErr Msg} (hacc : acc.allLt f.num) :
     ∀ (vs pre : Vals), cwfEntries S f kf vf vs = true →
       (∀ k, keyFree k pre = true ∨ keyFree k vs = true) →
       (depthVals vs : Int) ≤ depth →
       (∀ sub, sizeOf sub < sizeOf vs → RoundMsg S sub) →
-      DecOK S mi depth dis (.mk (accWith acc f.num (pre.append (stripVals dis vs))) u) rest R →
-      DecOK S mi depth dis (.mk (accWith acc f.num pre) u) (encVals S f vs ++ rest) R
+      DecTo S mi depth dis (.mk (accWith acc f.num (pre.append (stripVals dis vs))) u) rest R →
+      DecTo S mi depth dis (.mk (accWith acc f.num pre) u) (encVals S f vs ++ rest) R
   | .nil, pre, _, _, _, _, hrest => by
     simpa [encVals, stripVals, Vals.append_nil] using hrest
   | .cons v tl, pre, hwf, hK, hd, IH, hrest => by
@@ -456,12 +456,12 @@ theorem entries_ok {S : Schema} (hG : GroupScanOK S) {mi : Nat} {f kf vf : Field
 theorem fval_ok {S : Schema} (hG : GroupScanOK S) {mi : Nat} {f : Field} {g depth : Int} {dis : Bool}
     (hfind : (S.msg mi).find f.num = some f) (h1 : 1 ≤ f.num) (h2 : f.num ≤ maxValidNumber)
     (hg : g ≤ defaultRecursionLimit)
-    {acc : Fields} {u rest : List Byte} {R : Msg} (hacc : acc.allLt f.num)
+    {acc : Fields} {u rest : List Byte} {R : Except DErr Msg} (hacc : acc.allLt f.num)
     (hfree : ∀ o, f.oneof = some o → oneofFree (S.msg mi) o acc = true)
     {fv : FVal} (hwf : cwfFVal S g f fv = true) (hdepth : (depthFVal fv : Int) ≤ depth)
     (IH : ∀ sub, sizeOf sub < sizeOf fv → RoundMsg S sub)
-    (hrest : DecOK S mi depth dis (.mk (acc.snoc f.num (stripFVal dis fv)) u) rest R) :
-    DecOK S mi depth dis (.mk acc u) (encFVal S f fv ++ rest) R := by
+    (hrest : DecTo S mi depth dis (.mk (acc.snoc f.num (stripFVal dis fv)) u) rest R) :
+    DecTo S mi depth dis (.mk acc u) (encFVal S f fv ++ rest) R := by
   cases fv with
   | one v =>
     simp only [cwfFVal, Bool.and_eq_true, bne_iff_ne, ne_eq, Bool.not_eq_true'] at hwf
@@ -515,14 +515,14 @@ theorem fval_ok {S : Schema} (hG : GroupScanOK S) {mi : Nat} {f : Field} {g dept
 
 /-- the record loop over a field list (the decoder-loop invariant) -/
 theorem fields_ok {S : Schema} (hG : GroupScanOK S) {mi : Nat} {g depth : Int} {dis : Bool}
-    (hg : g ≤ defaultRecursionLimit) {u rest : List Byte} {R : Msg} :
+    (hg : g ≤ defaultRecursionLimit) {u rest : List Byte} {R : Except DErr Msg} :
     ∀ (fs : Fields) (lb : Nat) (acc : Fields), 1 ≤ lb → cwfFields S (S.msg mi) g lb fs = true →
       acc.allLt lb →
       (∀ o, oneofFree (S.msg mi) o acc = true ∨ oneofFree (S.msg mi) o fs = true) →
       (depthFields fs : Int) ≤ depth →
       (∀ sub, sizeOf sub < sizeOf fs → RoundMsg S sub) →
-      DecOK S mi depth dis (.mk (acc.append (stripFields dis fs)) u) rest R →
-      DecOK S mi depth dis (.mk acc u) (encFields S (S.msg mi) fs ++ rest) R
+      DecTo S mi depth dis (.mk (acc.append (stripFields dis fs)) u) rest R →
+      DecTo S mi depth dis (.mk acc u) (encFields S (S.msg mi) fs ++ rest) R
   | .nil, lb, acc, _, _, _, _, _, _, hrest => by
     simpa [encFields, stripFields, Fields.append_nil] using hrest
   | .cons num fv tl, lb, acc, hlb, hwf, hacc, hO, hd, IH, hrest => by
